@@ -32,11 +32,12 @@ type kv struct{ k, v int }
 type counters struct{ seeks, reseeks, deleteLoops, walks, multi int64 }
 
 type inst struct {
-	c    *cfg
-	m    omap.Map[int, int]
-	ref  map[int]int
-	hist []op
-	cnt  *counters
+	c             *cfg
+	m             omap.Map[int, int]
+	ref           map[int]int
+	hist          []op
+	cnt           *counters
+	emptied, used bool
 }
 
 func newMap(c *cfg) omap.Map[int, int] {
@@ -87,7 +88,7 @@ func (s *inst) Enabled() []op {
 	return append(ops, op{K: "clear"})
 }
 
-func (s *inst) Key() string { return hiddenKey(s.m) }
+func (s *inst) Key() string { return fmt.Sprintf("%s E%v", hiddenKey(s.m), s.emptied) }
 
 func apply(m omap.Map[int, int], o op) bool {
 	switch o.K {
@@ -117,6 +118,11 @@ func (s *inst) Apply(o op, check bool) *mc.Failure {
 		s.ref = map[int]int{}
 	}
 	s.hist = append(s.hist, o)
+	if len(s.ref) > 0 {
+		s.used = true
+	} else if s.used {
+		s.emptied = true
+	}
 	if !check {
 		return nil
 	}
